@@ -728,6 +728,9 @@ def _force_trigger_tasks(
         flow_nums = set()
         for itask in active:
             flow_nums.update(itask.flow_nums)
+        if not flow_nums:
+            # (the active group members are all no-flow tasks)
+            flow_nums = schd.pool._get_active_flow_nums()
 
     # Record off-group prerequisites, and active tasks to be removed.
     active_to_remove: List[TaskTokens] = []
